@@ -3,6 +3,8 @@
 cd "$(dirname "$0")"
 tier=${1:-quick}
 rc=0
+# the whole library must build (this is what MANIFEST.setup_cmd does on a fresh restore)
+(cd lean && flock ../.lock lake build Cql Driver Audit driver > /tmp/verif_whole_build.log 2>&1) || { echo "WHOLE-LIBRARY BUILD FAILED"; tail -20 /tmp/verif_whole_build.log; exit 1; }
 for id in $(python3 -c "import json;print(' '.join(c['property_id'] for c in json.load(open('MANIFEST.json'))['checks']))"); do
   ./check $id $tier | grep -v '^KNOWN-FINDING' || true
   python3 - "$id" <<'PY' || rc=1
